@@ -508,6 +508,30 @@ example : zipDepack exZipEnv (exZip.set 107 0x04) = none := by decide +kernel   
 example : zipDepack exZipEnv (exZip.set 14 0xff) = some exPayload := by decide +kernel
 example : zipDepack exZipEnv (exZip.set 42 0xff) = some exPayload := by decide +kernel
 
+/-! ### boundary check values: payload `61 c1 e8` has CRC-16 0x0000 -/
+def exZeroCrcPayload : Bytes := [0x61, 0xc1, 0xe8]
+example : crc16IBM exZeroCrcPayload 0 = 0#16 := by decide +kernel
+example : crc32A [0x61, 0xde, 0xb4, 0x6e, 0x85] 0 = 0#32 := by decide +kernel
+example : crc32A [0x61, 0xbc, 0x41, 0x48, 0x17] 0 = 0xFFFFFFFF#32 := by decide +kernel
+example : bzBlockCrc [0x61, 0xa0, 0xc3, 0x00, 0xdd] = 0#32 := by decide +kernel
+/-- ARC, stored member, stored CRC-16 = 0: accepted intact, **refused** with one flipped data bit -/
+def exArcZero : Bytes := [0x1a, 0x02, 0x53, 0x4f, 0x4e, 0x47, 0x2e, 0x4d, 0x4f, 0x44, 0x00, 0x00, 0x00, 0x00, 0x00, 0x03, 0x00,
+  0x00, 0x00, 0x21, 0x2a, 0x00, 0x60, 0x00, 0x00, 0x03, 0x00, 0x00, 0x00, 0x61, 0xc1, 0xe8, 0x1a, 0x00]
+example : arcDepack exEnv exArcZero = some exZeroCrcPayload := by decide +kernel
+example : arcDepack exEnv (exArcZero.set 30 0xc0) = none := by decide +kernel
+/-- ArcFS, the same payload, stored CRC-16 = 0 = "not recorded": by the format's rule the damaged
+    member is *accepted* — the single, explicit exception (hypothesis `hnz` of `C09_reject_arcfs`) -/
+def exArcfsZero : Bytes := [0x41, 0x72, 0x63, 0x68, 0x69, 0x76, 0x65, 0x00, 0x48, 0x00, 0x00, 0x00, 0xa8, 0x00, 0x00, 0x00,
+  0xc8, 0x00, 0x00, 0x00, 0xc8, 0x00, 0x00, 0x00, 0x0a, 0x00, 0x00, 0x00] ++ List.replicate 68 0x00 ++
+  [0x82, 0x73, 0x6f, 0x6e, 0x67, 0x5f, 0x6d, 0x6f, 0x64, 0x00, 0x00, 0x00, 0x03, 0x00, 0x00, 0x00, 0x3f, 0xff, 0xff, 0xff,
+   0x78, 0x56, 0x34, 0x12, 0x03, 0x00, 0x00, 0x00, 0x03, 0x00, 0x00, 0x00, 0x00, 0x00, 0x00, 0x00] ++ List.replicate 36 0x00 ++
+  [0x61, 0xc1, 0xe8]
+example : arcfsDepack exEnv exArcfsZero = some exZeroCrcPayload := by decide +kernel
+example : arcfsDepack exEnv (exArcfsZero.set 169 0xc0) = some [0x61, 0xc0, 0xe8] := by decide +kernel
+/-- bzip2 with block CRC = stream CRC = 0: a decoder output with one flipped bit is refused -/
+example : bzDepack [(0#32, [0x61, 0xa0, 0xc3, 0x00, 0xdd])] 0#32 = some [0x61, 0xa0, 0xc3, 0x00, 0xdd] := by decide +kernel
+example : bzDepack [(0#32, [0x61, 0xa0, 0xc3, 0x00, 0xdc])] 0#32 = none := by decide +kernel
+
 /-! ## rejection -/
 
 theorem toNat32_ne {a b : BitVec 32} (h : a ≠ b) : a.toNat ≠ b.toNat := fun e => h (BitVec.eq_of_toNat_eq e)
@@ -733,6 +757,89 @@ theorem C09_reject_lzx (env : LzxEnv) (f orig out : Bytes)
   rcases hs pos with h1 | h1
   · exact toNat32_ne (C09_crc32_detects orig out 0 hb) (h1.symm.trans hc)
   · exact h1 hc
+
+/-! ## no loophole in the comparisons: boundary check values, member selection -/
+
+/-- **Every gate test is exact for every stored value** — 0 and all-ones included: it holds iff the
+    stored field equals the check code of the output (gzip: and ISIZE its length).  The **only**
+    exception in the library is ArcFS, whose format defines a stored CRC of 0 as "not recorded"
+    (`arcfs.c`: `if(e.crc16 && …)`): its test also holds for `stored = 0`.  ARC/Spark shares the CRC-16
+    routine but *not* this rule (`crc16Gate`). -/
+theorem C09_gates_exact :
+    (∀ out s, crc16Gate out s = true ↔ s = (crc16IBM out 0).toNat) ∧
+    (∀ out s, lzxGate out s = true ↔ s = (crc32A out 0).toNat) ∧
+    (∀ out c n, gzipGate out c n = true ↔ c = (crc32A out 0).toNat ∧ sext32 n = out.length) ∧
+    (∀ chunks s, xzBlockCheck chunks s = true ↔ s = (crc32A chunks.flatten 0).toNat) ∧
+    (∀ out s, arcfsGate out s = true ↔ s = 0 ∨ s = (crc16IBM out 0).toNat) := by
+  refine ⟨?_, ?_, ?_, ?_, ?_⟩
+  · intro out s; unfold crc16Gate; simp
+  · intro out s; unfold lzxGate; simp
+  · intro out c n; unfold gzipGate; simp
+  · intro chunks s; unfold xzBlockCheck; rw [xz_chunks]; simp only [beq_iff_eq]; exact eq_comm
+  · intro out s; unfold arcfsGate crc16Gate; simp
+
+/-- bzip2, one block, exact for every value of both CRC fields: accepted iff the block header CRC is
+    the block's CRC **and** the stream CRC equals it too (`rotl(0,1) ^ c = c`) -/
+theorem C09_bzip2_single_block_exact (hc sc : BitVec 32) (d : Bytes) :
+    bzDepack [(hc, d)] sc = if hc = bzBlockCrc d ∧ sc = bzBlockCrc d then some d else none := by
+  have e : bzCombine 0 (bzBlockCrc d) = bzBlockCrc d := by
+    unfold bzCombine
+    show ((0#32 <<< 1 ||| 0#32 >>> 31) ^^^ bzBlockCrc d) = bzBlockCrc d
+    rw [BitVec.zero_shiftLeft, BitVec.zero_ushiftRight, BitVec.or_self, BitVec.zero_xor]
+  unfold bzDepack
+  simp only [bzRun, e, List.nil_append, C09_bzip2_stream_crc_live, Bool.not_false, Bool.true_and]
+  by_cases h1 : hc = bzBlockCrc d
+  · subst h1
+    by_cases h2 : sc = bzBlockCrc d
+    · simp [h2]
+    · simp [h2]
+  · have h1' : bzBlockCrc d ≠ hc := fun e => h1 e.symm
+    simp [h1, h1']
+
+/-- ARC/Spark: a stored CRC-16 of `0x0000` is compared like any other value — acceptance under an
+    all-zero CRC field means the output's CRC-16 *is* 0 — hence (C09_reject_arc) corruption of such
+    a member is refused exactly as for any other member -/
+theorem C09_arc_zero_crc_is_checked (env : ArcEnv) (f out : Bytes) (h : arcDepack env f = some out)
+    (hz : ∀ pos, le16 f (pos + 23) = 0) : (crc16IBM out 0).toNat = 0 := by
+  obtain ⟨pos, hc⟩ := C09_gate_arc env f out h
+  rw [← hc]; exact hz pos
+
+/-- **zip member selection**: `decrunch_zip` works on the *first* central-directory record that is a
+    supported, non-excluded file; its stat and extraction verdict is the verdict of the whole depack,
+    whatever members follow (`post`): a failed extraction of the selected member is never repaired by
+    a later member. -/
+theorem C09_zip_member_selection (env : ZipEnv) (f : Bytes) (pre post : List Nat) (p : Nat)
+    (ho : zipOpen f = some (pre ++ p :: post))
+    (hpre : ∀ q ∈ pre, zipSkips env f q = true) (hp : zipSkips env f p = false) :
+    zipDepack env f =
+      (match zipStat f p with
+       | none => none
+       | some (st, lho) => zipExtract env.inflate (env.junk st.uncompSize) st (zipTail f st lho)) :=
+  zipDepack_first env f pre post p ho hpre hp
+
+/-- … in particular: the selected member fails ⇒ the load fails -/
+theorem C09_zip_selected_member_failure (env : ZipEnv) (f : Bytes) (pre post : List Nat) (p : Nat)
+    (st : ZipStat) (lho : Nat) (ho : zipOpen f = some (pre ++ p :: post))
+    (hpre : ∀ q ∈ pre, zipSkips env f q = true) (hp : zipSkips env f p = false)
+    (hst : zipStat f p = some (st, lho))
+    (hfail : zipExtract env.inflate (env.junk st.uncompSize) st (zipTail f st lho) = none) :
+    zipDepack env f = none := by
+  rw [C09_zip_member_selection env f pre post p ho hpre hp, hst]; exact hfail
+
+/-- **ARC / ArcFS / LZX member selection**: once the entry loop reaches an entry it tries to extract
+    (`ArcSelected`, `ArcfsSelected`, `lzx_check_entry` answering "extract"), the loop's result *is*
+    that entry's extraction-and-check verdict — no branch continues to a later entry.  In particular
+    an unpack error or a check mismatch of the selected member makes the whole depack fail. -/
+theorem C09_member_selection_final :
+    (∀ (env : ArcEnv) (f : Bytes) (fuel pos level : Nat), ArcSelected env f pos →
+        arcLoop env f (fuel + 1) pos level = arcExtractAt env f pos) ∧
+    (∀ (env : ArcEnv) (f : Bytes) (dofs n pos : Nat), ArcfsSelected env f dofs pos →
+        arcfsLoop env f dofs (n + 1) pos = arcfsExtractAt env f dofs pos) ∧
+    (∀ (env : LzxEnv) (f : Bytes) (fuel pos : Nat) (mg : LzxMerge), pos + 31 ≤ f.length →
+        lzxDataPos f pos ≤ f.length → (lzxEntryCheck env f pos mg).2 = true →
+        lzxLoop env f (fuel + 1) pos mg =
+          lzxExtract env f (lzxDataPos f pos) (le32 f (pos + 6)) (u8 f (pos + 11)) (lzxEntryCheck env f pos mg).1) :=
+  ⟨arcLoop_selected, arcfsLoop_selected, lzxLoop_selected⟩
 
 /-- **C09_reject** — the summary used by the check: for the three check codes, a gate that only
     accepts `stored = check(out)` never accepts an output within one burst of the payload whose
